@@ -245,6 +245,10 @@ func List(tier string) []Scenario {
 	add("expr", plain)
 	add("closure", closures)
 	add("closurepred", closurePreds)
+	// one representative per stateful query type, explored one preemption deeper
+	for _, s := range []string{"//a | //b", "a[b]", "//*[ancestor::a]", "(//a)[2]", "*[last()]", "//a//b", "following::*", "*/(a, b)", "//b = '1'", "ancestor-or-self::*"} {
+		out = append(out, exprScenario("expr2", s, []string{"evaluate", "select"}, []int{1, 3}))
+	}
 	if tier == "thorough" {
 		for _, s := range append(append([]string{}, closures[:12]...), plain[:8]...) {
 			out = append(out, exprScenario("three", s, []string{"evaluate", "select", "evaluate"}, []int{0, 1, 3}))
